@@ -72,6 +72,12 @@ CHECKS = {
         design="3/C17",
         technique="Lean 4 proof (structural induction, permutation/sortedness of getmembers, substitution lemma) + exact model/code correspondence + independent text oracle",
     ),
+    "C13": dict(
+        text="Lean 4 theorems over all gate lists (induction over the exporter loop): for qiskit (both modes), cirq and sympy, whenever the exporter returns, the calls it made read as the circuit's non-nop gates - same base gate, number of controls, wire indices, parameter, same order (qiskit_translation, cirq_translation, sympy_translation); the OpenQASM 2/3 gate declaration is read back by a proved line reader as name, formals and one line per non-nop gate (qasm_roundtrip, qasm_body_lines, qasm_text_shape); the repaired exporter declares one formal per qubit in index order and each argument resolves to its own position (qasm_formals_full, qasm_wire_position); decide-witnesses for the four open defects. Model tied to the code per run: the recorded QuantumCircuit call sequence, cirq.decompose_once op list, sympy factor list and the QASM text are compared exactly with the model for systematic + random circuits (all gate kinds, MCX(k), MCtrl(X/Z), P/CP over 27 parameter values incl. rounding ties, barriers, name maps in order / dotted / aliased / permuted / incomplete) and compiled qlassf functions x 5 exporters x 2 modes; always-on search judges the real export by own readers + own state-vector simulator (unitary of qiskit Operator / cirq.unitary / sympy represent, <= 6 qubits).",
+        note="partial: call lists and text; third-party gate semantics trusted. Proved: translation whenever the exporter returns, QASM syntactic round trip, formals of the repaired exporter. Not proved (correspondence only): that each exporter returns on its exportable set, that the read-back QASM lines resolve to the circuit's operations, the unrepaired formals in the in-order case. Trusted: Lean kernel (axioms audited per run), the reading of qiskit/cirq/sympy calls as textbook gates (validated numerically per case), CPython '%.2f' = round-half-even of the exact value (validated per run), the harness readers. pennylane (not installed) and qutip (exporter fails in the baseline) exporters are out of scope.",
+        design="3/C13",
+        technique="Lean 4 proof (induction over the exporter loop, list lemmas for the text reader) + exact call-list/text correspondence + numeric unitary comparison",
+    ),
 }
 
 NOT_YET = {
